@@ -13,9 +13,10 @@ import (
 )
 
 type VC struct {
-	pc   []string
-	goal string
-	note string
+	pc    []string
+	goal  string
+	note  string
+	trace []string
 }
 
 type Obligation struct {
@@ -30,6 +31,10 @@ type Obligation struct {
 	Model   string
 	Detail  string
 	SmtSize int
+	scripts []string          // closed scripts (position lemmas); each must be unsat
+	Inputs  map[string]string // values of the function's inputs in the counterexample
+	Trace   []string          // oracle decisions (write failures, select arms) along the failing path
+	inputTerms map[string]string
 }
 
 type Exec struct {
@@ -69,6 +74,7 @@ type Exec struct {
 	assertCtr     map[string]int
 	exits         int
 	substrOf      map[string]string
+	inputTerms    map[string]string
 }
 
 type execMode struct {
@@ -116,7 +122,8 @@ func (ex *Exec) record(st *State, name, kind, goal, note string) {
 		return
 	}
 	ob := ex.obl(name, kind)
-	ob.VCs = append(ob.VCs, VC{pc: append([]string(nil), st.pc...), goal: goal, note: note})
+	ob.VCs = append(ob.VCs, VC{pc: append([]string(nil), st.pc...), goal: goal, note: note, trace: append([]string(nil), st.trace...)})
+	ob.inputTerms = ex.inputTerms
 }
 
 func (ex *Exec) obl(name, kind string) *Obligation {
@@ -775,6 +782,9 @@ func (ex *Exec) loadPtr(st *State, p Val, instr ssa.Instruction) Val {
 		}
 		if se, ok := p.Meta.(sliceElem); ok {
 			reg, sort := sliceRegion(se.et)
+			if t, ok := st.known[reg+"|"+p.Base+"|"+se.idx]; ok {
+				return term(t, se.et)
+			}
 			return term(sel(sel(st.region(reg, sort), p.Base), se.idx), se.et)
 		}
 		path, lt := pathOf(p.Root, p.Path)
@@ -858,6 +868,11 @@ func (ex *Exec) storePtr(st *State, p Val, v Val, instr ssa.Instruction) {
 			reg, sort := sliceRegion(se.et)
 			a := st.region(reg, sort)
 			st.setRegion(reg, sort, store(a, p.Base, store(sel(a, p.Base), se.idx, ex.asTerm(v))))
+			for k := range st.known {
+				if strings.HasPrefix(k, reg+"|"+p.Base+"|") {
+					delete(st.known, k)
+				}
+			}
 			return
 		}
 		path, lt := pathOf(p.Root, p.Path)
@@ -931,6 +946,28 @@ func (ex *Exec) unop(st *State, in *ssa.UnOp) Val {
 		panic(subsetErr{"bitwise complement"})
 	}
 	panic(subsetErr{"unop " + in.Op.String()})
+}
+
+// addT adds two integer terms, folding literals.
+func addT(a, b string) string {
+	la, aok := isIntLit(a)
+	lb, bok := isIntLit(b)
+	switch {
+	case aok && bok:
+		return smtInt(la + lb)
+	case aok && la == 0:
+		return b
+	case bok && lb == 0:
+		return a
+	}
+	return "(+ " + a + " " + b + ")"
+}
+
+func (st *State) setKnown(reg, id, idx, t string) {
+	if st.known == nil {
+		st.known = map[string]string{}
+	}
+	st.known[reg+"|"+id+"|"+idx] = t
 }
 
 func isIntLit(s string) (int64, bool) {
@@ -1254,7 +1291,7 @@ func (ex *Exec) indexAddr(st *State, in *ssa.IndexAddr) Val {
 	case KSlice:
 		ex.record(st, ex.safetyName("bounds", in), "safety", and("(<= 0 "+i.T+")", "(< "+i.T+" "+x.Fs[2].T+")"), "index out of range at "+siteOf(in))
 		et := x.Typ.Underlying().(*types.Slice).Elem()
-		return Val{K: KHeapPtr, Typ: in.Type(), Base: x.Fs[0].T, Meta: sliceElem{et, "(+ " + x.Fs[1].T + " " + i.T + ")"}}
+		return Val{K: KHeapPtr, Typ: in.Type(), Base: x.Fs[0].T, Meta: sliceElem{et, addT(x.Fs[1].T, i.T)}}
 	}
 	panic(subsetErr{"IndexAddr on unsupported value"})
 }
@@ -1324,7 +1361,7 @@ func (ex *Exec) sliceInstr(st *State, in *ssa.Slice) Val {
 		}
 		// cap is not modelled: require hi <= len (stronger than Go's hi <= cap)
 		ex.record(st, ex.safetyName("bounds", in), "safety", and("(<= 0 "+lo+")", "(<= "+lo+" "+hi+")", "(<= "+hi+" "+x.Fs[2].T+")"), "slice bounds at "+siteOf(in))
-		return Val{K: KSlice, Typ: in.Type(), Fs: []Val{x.Fs[0], term("(+ "+x.Fs[1].T+" "+lo+")", tInt), term("(- "+hi+" "+lo+")", tInt)}}
+		return Val{K: KSlice, Typ: in.Type(), Fs: []Val{x.Fs[0], term(addT(x.Fs[1].T, lo), tInt), term("(- "+hi+" "+lo+")", tInt)}}
 	}
 	panic(subsetErr{"Slice on unsupported value"})
 }
